@@ -208,8 +208,13 @@ def check_collect(chk, prefix="C05"):
             else:
                 chk.fault("collect: unexpected return value")
                 continue
+        def replay_native(inputs):
+            from pyvc.check import native
+            r_ = native("batcher_bounded.py", {"max_items": 3}, timeout=300)
+            return (not r_.get("ok")), r_
         for name, goal in collect_post(s, g, b).items():
-            chk.prove(f"{prefix}.collect.{name}", s.pc, goal, desc=DESC[name], sample=f"_collect_checkpoint_batch exit path: {name}")
+            chk.prove(f"{prefix}.collect.{name}", s.pc, goal, desc=DESC[name], sample=f"_collect_checkpoint_batch exit path: {name}", replay=replay_native,
+                      describe=lambda m: {"note": "replayed by the native conformance run over small queues (native/batcher_bounded.py); solver model: " + chk.model_text(m)[:600]})
     for k in eng.stats:
         chk.engine_stats[k] = chk.engine_stats.get(k, 0) + eng.stats[k]
     return eng
